@@ -30,6 +30,8 @@ python3 translator/py2coq_space.py "$REPO/src/lcm" coq/Gen >> build/translator.l
 echo "translator_space_status=$?" >> build/translator.log
 python3 translator/py2coq_weight.py "$REPO/src/lcm" coq/Gen >> build/translator.log 2>&1
 echo "translator_weight_status=$?" >> build/translator.log
+python3 translator/py2coq_disp.py "$REPO/src/lcm" coq/Gen >> build/translator.log 2>&1
+echo "translator_disp_status=$?" >> build/translator.log
 cd coq
 if [ ! -f Makefile ] || [ _CoqProject -nt Makefile ]; then
   coq_makefile -f _CoqProject -o Makefile > ../build/coq_makefile.log 2>&1
